@@ -60,6 +60,18 @@ def _run(prop, tier, seed, replay, here, repo, env, binp, scratch, cfg, t0):
     by_backend = {}
     solver_time = 0.0
 
+    # engines run concurrently (they are separate processes)
+    import threading
+    eng_results = {}
+    def _run_other(eng):
+        mod = __import__("eng_" + eng)
+        eng_results[eng] = mod.run(prop, tier, seed, here, repo, env, scratch)
+    threads = []
+    for eng in cfg["engines"]:
+        if eng != "govc":
+            th = threading.Thread(target=_run_other, args=(eng,))
+            th.start()
+            threads.append(th)
     if "govc" in cfg["engines"]:
         res = run_govc(prop, tier, here, repo, env, binp, scratch)
         if res.get("error"):
@@ -80,11 +92,12 @@ def _run(prop, tier, seed, replay, here, repo, env, binp, scratch, cfg, t0):
                              "kind": o["kind"], "instances": o["instances"], "vc_bytes": o.get("vc_bytes", 0),
                              "weak": o.get("candidate_model_from_instantiation", False), "func": key,
                              "replay_test": o.get("replay_test", ""), "replay_note": o.get("replay_note", "")})
+    for th in threads:
+        th.join()
     for eng in cfg["engines"]:
         if eng == "govc":
             continue
-        mod = __import__("eng_" + eng)
-        r = mod.run(prop, tier, seed, here, repo, env, scratch)
+        r = eng_results.get(eng) or {"errors": ["engine %s did not return" % eng]}
         engine_errors += r.get("errors", [])
         obls += r.get("obligations", [])
         functions += r.get("functions", [])
